@@ -10,6 +10,7 @@ import (
 	"go.nanomsg.org/mangos/v3"
 	"go.nanomsg.org/mangos/v3/protocol/surveyor"
 	"go.nanomsg.org/mangos/v3/protocol/xsurveyor"
+	"go.nanomsg.org/mangos/v3/vh/c05"
 	"go.nanomsg.org/mangos/v3/vh/c08"
 	"go.nanomsg.org/mangos/v3/vh/kit"
 	"go.nanomsg.org/mangos/v3/vh/vt"
@@ -41,6 +42,8 @@ func init() {
 			{Name: "surveyor-slow-respondent-survey-sequence", Mode: "enum", Reset: kit.ResetGlobals, Body: slowRespondent, NeedCounters: []string{"queued-surveys-intact"}},
 			{Name: "surveyor-shared-message-two-contexts", Mode: "sched", Bound: b, Reset: kit.ResetGlobals, Body: schedSharedMessage},
 			{Name: "xsurveyor-slow-respondent-and-the-two-queue-lengths", Mode: "enum", Reset: kit.ResetGlobals, Body: func() { c08.QueueLengths("xsurveyor", xsurveyor.NewSocket, []byte{0x80, 0, 0, 1}, 4) }, NeedCounters: []string{"slow-peer-given-all-queued"}},
+			{Name: fmt.Sprintf("respondent-answers-hist-D%d", d-1), Mode: "hist", Reset: kit.ResetGlobals, Body: func() { c05.RespondentHist(d - 1) }, NeedCounters: []string{"reply-routed"}},
+			{Name: fmt.Sprintf("xrespondent-answers-hist-D%d", d-1), Mode: "hist", Reset: kit.ResetGlobals, Body: func() { c05.XRespondentHist(d - 1) }, NeedCounters: []string{"raw-recv-header", "raw-reply-routed"}},
 			{Name: "xsurveyor-hist", Mode: "hist", Reset: kit.ResetGlobals, Body: func() { rawHist(4) }},
 		}
 	})
